@@ -98,6 +98,24 @@ NameRecord(p, v, id) ==
     [] OTHER -> <<>>
 HasTypographicNames(p, v) == ~(NameRecord(p, v, 1) = NameRecord(p, v, 16) /\ NameRecord(p, v, 2) = NameRecord(p, v, 17))
 
+\* ---- bit lists ------------------------------------------------------------------------------------
+\* A bit-list attribute names the bits that are set (a number listed twice is still one bit); the table field holds
+\* exactly those that fall inside the field.  `pb` = present bit-list attributes, `b` their values as SETS.
+BitDefault(a) == CASE a = "openTypeHeadFlags" -> {0, 1} [] a = "openTypeOS2Type" -> {2} [] OTHER -> {}
+BitVal(pb, b, a) == IF a \in pb THEN b[a] ELSE BitDefault(a)
+StyleBitsSelection(sm) == CASE sm = REGULAR -> {6} [] sm = BOLD -> {5} [] sm = ITALIC -> {0} [] sm = BOLDITALIC -> {0, 5} [] OTHER -> {}
+StyleBitsMac(sm) == CASE sm = BOLD -> {0} [] sm = ITALIC -> {1} [] sm = BOLDITALIC -> {0, 1} [] OTHER -> {}
+BitField(p, v, pb, b, f) ==
+  CASE f = "headFlags"   -> BitVal(pb, b, "openTypeHeadFlags") \cap 0..15
+    [] f = "fsType"      -> BitVal(pb, b, "openTypeOS2Type") \cap 0..15
+    [] f = "fsSelection" -> (BitVal(pb, b, "openTypeOS2Selection") \cup StyleBitsSelection(Str(p, v, "styleMapStyleName"))) \cap 0..15
+    [] f = "macStyle"    -> StyleBitsMac(Str(p, v, "styleMapStyleName"))
+    [] f = "unicodeRanges"  -> BitVal(pb, b, "openTypeOS2UnicodeRanges") \cap 0..127
+    [] f = "codePageRanges" -> BitVal(pb, b, "openTypeOS2CodePageRanges") \cap 0..63
+\* fields that are computed from the character map when the attribute is absent (environment)
+BitFieldDefined(pb, f) == (f = "unicodeRanges" => "openTypeOS2UnicodeRanges" \in pb) /\ (f = "codePageRanges" => "openTypeOS2CodePageRanges" \in pb)
+BitFields == {"headFlags", "fsType", "fsSelection", "macStyle", "unicodeRanges", "codePageRanges"}
+
 \* PostScript font name: only printable ASCII, no space, none of []{}<>()/%
 PsForbidden == {91, 93, 40, 41, 123, 125, 60, 62, 47, 37}
 PsLegal(s) == \A k \in 1..Len(s) : s[k] >= 33 /\ s[k] <= 126 /\ s[k] \notin PsForbidden
